@@ -14,7 +14,7 @@
    Size hypotheses: the file stays below 2^64 bytes, the id counter below 2^32. *)
 From Coq Require Import List NArith Bool.
 From Traph Require Import Bytes Consts Rules Tst TstDefs Traph Spec Ops RefDefs RefFull TraceDefs StoreFacts StoreFacts2
-  GenStorage GenNode GenTrie GenTrieFacts GenTraphW GenTraphWDefs GenTraphP GenTraphPDefs GenTraphPFacts1 GenTraphPFacts.
+  GenStorage GenNode GenTrie GenTrieFacts GenTraphW GenTraphWDefs GenTraphP GenTraphPDefs GenTraphPFacts1 GenTraphPFacts AnchorsFacts.
 Import ListNotations.
 Open Scope N_scope.
 
@@ -52,5 +52,20 @@ Proof.
   destruct (py_traph_add_pages_spec d rs h H1 H2 Hk rm hd sg lrus cr Hram Hrep Hwf Hsz Hlt) as (n & c & Er & hd' & sg' & E & Hh & Hr).
   fold s in Er, Hh, Hr. exists hd', sg', n, c. split; [exact Er|]. split; [exact E|]. split; [exact Hh|exact Hr].
 Qed.
+
+(* the condition holds after every history whose reopen requests re-supply a rule for every anchor flagged in the file at that
+   moment (AnchorsFacts.resupplied; a history without reopen satisfies it; AnchorsFacts.reopen_AK_iff: the condition on a reopen
+   is also necessary) *)
+Theorem C06_source_add_page_resupplied : forall d rs h, wf_rules rs -> Forall wf_op h -> resupplied (init d rs) h ->
+  let s := run d rs h in let a := srun d rs h in
+  forall rm hd sg lru cr, ramrep s rm -> hrep s hd sg -> wf_lru lru ->
+  let s' := fst (Ops.step s (OAddPage lru cr)) in
+  nb s' * 128 < 2 ^ 64 -> lastwe s + 1 < 2 ^ 32 ->
+  exists hd' sg' n c, snd (sstep s a (OAddPage lru cr)) = Report n c /\
+    py_traph_add_page rm hd sg lru cr = Some (hd', sg', report_of n c) /\ hrep s' hd' sg' /\ ramrep s' rm.
+Proof.
+  intros d rs h H1 H2 H3. exact (C06_source_add_page d rs h H1 H2 (AnchorsFacts.run_anchors_known d rs h H1 H2 H3)).
+Qed.
 Print Assumptions C06_source_add_page.
 Print Assumptions C06_source_add_pages.
+Print Assumptions C06_source_add_page_resupplied.
